@@ -224,6 +224,9 @@ func init() {
 			Name: "S", Kind: "oracle", Rule: rule + " — in-process, no race detector",
 			N: c.N(12, 400), Gen: c11Gen, Check: c11CheckInProcess, Batch: 12,
 		})
+		// simultaneous timed matches on the shared clock (leg B of C14): each returns what it returns alone
+		c14BurstLeg(c)
+		regexp2.SetTimeoutCheckPeriod(callmix.ClockPeriod)
 		bin, err := buildRaceBinary()
 		if err != nil {
 			c.Result.Notes = append(c.Result.Notes, "C11: race-detector binary not available, leg R skipped: "+err.Error())
